@@ -1144,6 +1144,56 @@ func (s *TxStore) removableTxForRemoveWallet(msgTx *wire.MsgTx, scriptHashSet ma
 	return true, nil
 }
 
+// spendsCreditOfOtherWallet reports whether msgTx spends a mined or pending credit
+// that belongs to a wallet other than the one being removed (scriptHashSet holds the
+// script hashes of the removed wallet). Such a transaction is still needed: its record
+// is what lets a later rollback give the spent credit back to its owner.
+func (s *TxStore) spendsCreditOfOtherWallet(tx mwdb.DBTransaction, msgTx *wire.MsgTx,
+	scriptHashSet map[string]struct{}) (bool, error) {
+
+	if blockchain.IsCoinBaseTx(msgTx) {
+		return false, nil
+	}
+	nsCredits := tx.FetchBucket(s.bucketMeta.nsCredits)
+	nsUnminedCredits := tx.FetchBucket(s.bucketMeta.nsUnminedCredits)
+	for _, txIn := range msgTx.TxIn {
+		prevOut := &txIn.PreviousOutPoint
+		entries, err := getCreditsByTxHash(nsCredits, &prevOut.Hash)
+		if err != nil {
+			return false, err
+		}
+		for _, entry := range entries {
+			cred := credit{block: &BlockMeta{}}
+			if err = readRawCreditKey(entry.Key, &cred); err != nil {
+				return false, err
+			}
+			if cred.outPoint.Index != prevOut.Index {
+				continue
+			}
+			if err = readCreditValue(entry.Value, &cred); err != nil {
+				return false, err
+			}
+			if _, ok := scriptHashSet[string(cred.scriptHash)]; !ok {
+				return true, nil
+			}
+		}
+		v, err := existsRawUnminedCredit(nsUnminedCredits, canonicalOutPoint(&prevOut.Hash, prevOut.Index))
+		if err != nil {
+			return false, err
+		}
+		if v != nil {
+			var cred credit
+			if err = readCreditValue(v, &cred); err != nil {
+				return false, err
+			}
+			if _, ok := scriptHashSet[string(cred.scriptHash)]; !ok {
+				return true, nil
+			}
+		}
+	}
+	return false, nil
+}
+
 func (s *TxStore) checkBlockRecordAfterTxRemoved(nsBlocks mwdb.Bucket, blkDeleted map[uint64]map[wire.Hash]struct{}) error {
 
 	for height, hashes := range blkDeleted {
@@ -1235,6 +1285,13 @@ func (s *TxStore) RemoveRelevantTx(tx mwdb.DBTransaction, addrmgr *keystore.Addr
 			return nil, false, err
 		}
 		if removable {
+			spendsOther, err := s.spendsCreditOfOtherWallet(tx, &rec.MsgTx, scriptHashSet)
+			if err != nil {
+				return nil, false, err
+			}
+			removable = !spendsOther
+		}
+		if removable {
 			err = deleteRawUnmined(nsUnmined, hash[:])
 			if err != nil {
 				return nil, false, err
@@ -1281,6 +1338,13 @@ func (s *TxStore) RemoveRelevantTx(tx mwdb.DBTransaction, addrmgr *keystore.Addr
 		removable, err := s.removableTxForRemoveWallet(msgtx, scriptHashSet)
 		if err != nil {
 			return nil, false, err
+		}
+		if removable {
+			spendsOther, err := s.spendsCreditOfOtherWallet(tx, msgtx, scriptHashSet)
+			if err != nil {
+				return nil, false, err
+			}
+			removable = !spendsOther
 		}
 		if removable {
 			err = nsTxRecords.Delete(item.Key)
